@@ -956,6 +956,59 @@ func suiteC15(c *Ctx) []Suite {
 			}
 			return out
 		}},
+		{Name: "size/several-violations-on-one-line", Gen: func(c *Ctx) []Case {
+			// several items on one line, each with a violated declaration and all with the same
+			// element count (so that their error texts are equal): every one is reported at its own
+			// declaration
+			var out []Case
+			for i := 0; i < c.N(300); i++ {
+				n := 2 + c.R.Intn(3)
+				cnt := 1 + c.R.Intn(3)
+				line := "S1F1 W H->E <L"
+				var cols []int
+				for k := 0; k < n; k++ {
+					ty := []string{"B", "U1", "I2", "U4", "BOOLEAN", "A"}[c.R.Intn(6)]
+					body := strings.Repeat(" 1", cnt)
+					if ty == "BOOLEAN" {
+						body = strings.Repeat(" T", cnt)
+					} else if ty == "A" {
+						body = " \"" + strings.Repeat("q", cnt) + "\""
+					}
+					decl := []string{fmt.Sprintf("[%d]", cnt+1+c.R.Intn(2)), fmt.Sprintf("[..%d]", cnt-1), fmt.Sprintf("[%d..]", cnt+1), fmt.Sprintf("[%d..%d]", cnt+1, cnt+3)}[c.R.Intn(4)]
+					line += " <" + ty
+					cols = append(cols, utf8.RuneCountInString(line)+1)
+					line += decl + body + ">"
+				}
+				// the enclosing list violates its own declaration with the same count, one time in two
+				text := line + ">."
+				if c.R.Intn(2) == 0 && n == cnt {
+					text = strings.Replace(line, "<L", fmt.Sprintf("<L[%d]", n+1), 1) + ">."
+					shift := len(fmt.Sprintf("[%d]", n+1))
+					for k := range cols {
+						cols[k] += shift
+					}
+					cols = append(cols, len("S1F1 W H->E <L")+1)
+				}
+				res := parseSML(text)
+				cs := Case{Op: smlOp(text), Decisive: true, Nontrivial: true, Tags: []string{fmt.Sprintf("one-line violations:%d", len(cols))}}.fields("n err warn")
+				var got, exp []string
+				for _, e := range res.errs {
+					if strings.Contains(e, "data item size overflow") {
+						got = append(got, e[:strings.IndexByte(e, ':')])
+					}
+				}
+				for _, col := range cols {
+					exp = append(exp, fmt.Sprintf("Ln 1, Col %d", col))
+				}
+				if res.panicked {
+					cs.Oracle = "panic"
+				} else if strings.Join(got, "; ") != strings.Join(exp, "; ") {
+					cs.Oracle = fmt.Sprintf("size errors reported at [%s], the violated declarations are at [%s]", strings.Join(got, "; "), strings.Join(exp, "; "))
+				}
+				out = append(out, cs)
+			}
+			return out
+		}},
 		{Name: "size/nested-declarations", Gen: func(c *Ctx) []Case {
 			// a list whose own declaration is violated while its descendants carry (correct or
 			// violated) declarations of their own: every size error is reported at the
